@@ -375,6 +375,17 @@ func (fr *Frame) dispatchCall2(instr ssa.Instruction, cc *ssa.CallCommon, pos to
 	if lv := fr.lockCall(cc, pos); lv != nil {
 		return *lv
 	}
+	if c := eng.ContractFor(fn); c != nil && !c.Inline && c.ModAll && len(c.Ensures) == 0 {
+		// an iterator whose contract says nothing about its effect: the range-over-func model is more precise
+		if ci, _ := fr.rangeFuncYield(cc); ci != nil {
+			c.Used = true
+			fr.noKeep = true
+			fr.lockKeep = !eng.mayReachHolder(fn)
+			v := fr.rangeFuncCall(cc, ci, pos)
+			fr.noKeep, fr.lockKeep = false, false
+			return v
+		}
+	}
 	if c := eng.ContractFor(fn); c != nil && !c.Inline {
 		var res Val
 		if len(fn.FreeVars) > 0 && len(bindings) == len(fn.FreeVars) {
@@ -396,6 +407,14 @@ func (fr *Frame) dispatchCall2(instr ssa.Instruction, cc *ssa.CallCommon, pos to
 	o := fr.fnOrigin(fn)
 	inMod := o.Pkg != nil && eng.InModule(o.Pkg.Pkg)
 	if inMod || (o.Pkg == nil && len(fn.Blocks) > 0 && fn.Parent() != nil) {
+		if ci, _ := fr.rangeFuncYield(cc); ci != nil {
+			// an iterator of the module that is not executed: treated like any other iterator
+			fr.noKeep = true
+			fr.lockKeep = !eng.mayReachHolder(o)
+			v := fr.rangeFuncCall(cc, ci, pos)
+			fr.noKeep, fr.lockKeep = false, false
+			return v
+		}
 		fr.R.note("call of %s (no contract, not inlinable): heap havocked", fr.R.fnShort(o))
 		// module code may touch monitor-protected state it is handed: nothing is preserved
 		fr.noKeep = true
@@ -822,11 +841,13 @@ func (fr *Frame) applyContractVars(c *Contract, fn *ssa.Function, cc *ssa.CallCo
 		fr.lockKeep = false
 	default:
 		if c.HavocExt {
+			restore := fr.keepOwnBoxes()
 			for _, n := range fr.R.Heap.Names() {
 				if !fr.moduleOwnedComp(n) {
 					fr.R.Heap.Havoc(fr.st, n)
 				}
 			}
+			restore()
 		}
 		pctx := &EvalCtx{fr: fr, st: pre, vars: vars, pkgPath: c.PkgPath, contract: c}
 		for _, m := range c.Modifies {
